@@ -53,7 +53,7 @@ var propertyConfigs = map[string]*propertyConfig{
 			"With a PLAINTEXT operand at equal scales: the plaintext takes part in the first component only (Add / Sub) or multiplies every component, times T (Mul); the other components are copied.  " +
 			"MulRelin: the third component of the tensor goes through the gadget product with the key set's relinearisation key (both NAMED), degree 1; without a key set it returns an error in both styles and dereferences nothing nil (finding F43).  A product of operands of total degree 3 is refused.  MulThenAdd with a scalar: the accumulator keeps its degree and ends at the common level (finding F44).  Signed machine scalars (int64): their conversion never wraps (obligation kind overflow).  A receiver of higher degree than both operands gets the missing component cleared (finding F42).  " +
 			"RotateColumns / RotateRows: the automorphism of the ciphertext (contract of C04) for the Galois element of the rotation (NAMED uf_galel(k); that it is 5^k is property C11), respectively for the element of order two.  " +
-			"Rescale: on success the receiver has the degree of the input whatever degree it had (finding F40), the input's flags, the input's scale divided by the consumed prime (named), rounded quotients of the input's components (named), no index is out of range (obligation kind index), and an input at level 0 is refused with an error.",
+			"Rescale: on success the receiver has the degree of the input whatever degree it had (finding F40), the input's flags, the input's scale divided by the consumed prime (named), rounded quotients of the input's components (named), no index is out of range (obligation kind index), and an input at level 0 is refused with an error.  Mul with two ciphertexts also into a receiver of degree 0 (clause safety index; finding F69: the receiver was indexed before it was resized).",
 		Assumptions: append(append([]string{}, engineBAssumptions...), "scales are compared and converted by TRUSTED leaves whose outcome is NAMED by uninterpreted functions of the scale's contents (cmpval, uf_scale64, uf_msb0/1): the contracts say which branch a comparison selects and which factors are applied, not what the factors are",
 			"Ring.MulScalar, MulScalarThenAdd / ThenSub, DivRoundByLastModulusNTT, Scale.Mul / Div and the big-integer scalar products are TRUSTED abstract leaves (ring-element reading of the row-level contracts of C01 / C02)",
 			"NOT decided: anything about programs (noise budget, exactness after decoding), the value of the scale-matching factors and of the recorded scale after scale matching, relinearisation, multiply-then-add, the scale-invariant (BFV) style, the scale recorded by a product, plaintext and vector operands, the VALUE of a rescaled component (rounded division is not a ring operation)"),
@@ -98,7 +98,7 @@ var propertyConfigs = map[string]*propertyConfig{
 			"Lemma over the contracts (stated): aggregation being + in a commutative ring, the key is (sum e_i - (sum s_i)*crp, crp) for every order and grouping.  " +
 			"Galois keys: AggregateShares keeps the Galois element and refuses shares of different elements; GenShare tags the share with the element and returns (no nil dereference, obligation kind nil-deref under `nilsafe`) with and without an auxiliary modulus P (finding F29).  " +
 			"Share generation of evaluation keys and of round one of the relinearisation key, PREFIX contracts (clause `upto firstloop`: the state in which the digit loops start; the loops themselves are not covered): the buffer holds the secret-key term (P*s_i, or s_i itself without auxiliary modulus) in the NTT domain, OUT of the Montgomery domain for the relinearisation key (it is added to an error that is not in Montgomery form) and IN Montgomery form for evaluation keys, and the ephemeral secret is in NTT and Montgomery form, with and without P.  " +
-			"Finalisation (EvaluationKeyGenProtocol.GenEvaluationKey, a BOUNDED instance labelled #ragged: two RNS components with one and two power-of-two digits): every digit of the aggregated share and of the reference polynomials reaches the key (finding F28).",
+			"Finalisation (EvaluationKeyGenProtocol.GenEvaluationKey, a BOUNDED instance labelled #ragged: two RNS components with one and two power-of-two digits): every digit of the aggregated share and of the reference polynomials reaches the key (finding F28).  Refusal of mismatched shares, one more clause (bounded shape): EvaluationKeyGenProtocol.AggregateShares - hence the Galois-key protocol - returns an error for shares whose power-of-two decomposition differs (finding F68: it compared levels only and added the shares digit by digit).",
 		Assumptions: append(append([]string{}, engineBAssumptions...), "BOUNDED, not a proof: the GenEvaluationKey obligations are for one ragged shape (digit counts [1 2], loops unwound); the general statement needs an invariant over a ragged matrix, which the abstract engine does not have",
 			"NOT decided: the GenShare digit loops of the evaluation-key and relinearisation-key protocols (row-level gadget factors; only the state they start from is under contract), noise bounds, the common reference string"), Trusted: stdTrusted,
 	},
@@ -130,7 +130,7 @@ var propertyConfigs = map[string]*propertyConfig{
 		Explain: "Count level of the property.  Every serializable composite type (ring.Poly, ringqp.Poly, rlwe Element/Plaintext/keys/key sets/gadget ciphertexts/metadata readers, rgsw.Ciphertext, all multiparty shares, bootstrapping.EvaluationKeys, PowerBasis) is under the same three clauses: " +
 			"WriteTo reports on success exactly the number of bytes the value announces (announced(x) = the BinarySize method executed on the same symbolic state), and leaves nothing unflushed in the buffered writer (ghost counter pending(w) == 0); " +
 			"ReadFrom reports on success exactly the announced size of the object it rebuilt, for EVERY prior state of the receiver (optional fields nil or not).  The fixed-size primitives of utils/buffer are verified against the documented io.Writer / io.Reader / bufio contracts " +
-			"(err == nil implies the full size was moved, whatever the chunking: a short Read is not an error).  The numeric instance of structs.Vector.ReadFrom is verified with the run-time panics of make / reslice and an allocation bound as obligations.",
+			"(err == nil implies the full size was moved, whatever the chunking: a short Read is not an error).  The numeric instance of structs.Vector.ReadFrom is verified with the run-time panics of make / reslice and an allocation bound as obligations.  Added in 13.39: buffer.Buffer.Write (typed AST): a write that reports success stored the whole of p (finding F73: capacity for length); the assumed interface contract of Reader.Peek carries the precondition n <= Size() (bufio can never satisfy a larger Peek) and every caller meets it (finding F74: buffer.Read did not); the count-level contracts of Plaintext.ReadFrom and EvaluationKey.ReadFrom carry `safety index`: a count corrupted to zero is an error, not an index out of range (finding F77); the structural `decodes` contract also demands that a JSON decoder going through a local mirror struct mentions every exported field of its receiver (finding F76: ParametersLiteral.LogNthRoot).",
 		Assumptions: []string{
 			"Engine B executes the go/ssa form of each method; the type switch on the writer/reader takes the buffer.Writer / buffer.Reader branch (the default branch wraps the stream in a bufio object and calls the same method)",
 			"io.Writer.Write, io.Reader.Read, io.ReadFull, bufio Peek/Discard/Flush/Available carry their documented behaviour as ASSUMED contracts (utils/buffer/zz_contracts_verif.go)",
